@@ -191,6 +191,12 @@ def call_get_buffer(c, env):
     return [ctx], [buf], {}, ctx
 
 
+def call_get_buffer_plain(c, env):
+    ctx = mk_ctx(c, env)
+    buf = c.obj("liquid.output:NullIO", "null_buffer", __text__=c.str("buf_text"))
+    return [ctx], [buf], {}, ctx
+
+
 def call_template_get_buffer(c, env):
     t = c.obj(TEMPLATE, "template", env=env)
     return [], [], {}, t
@@ -201,6 +207,7 @@ two_run("assign", CTX + ".assign", "local_namespace_limit", _unset, call_assign,
 two_run("copy", CTX + ".copy", "context_depth_limit", _big, call_copy, ["ContextDepthError"])
 two_run("copy", CTX + ".copy", "local_namespace_limit", _unset, call_copy, ["ContextDepthError"], also_monotone=False)
 two_run("get_buffer", CTX + ".get_buffer", "output_stream_limit", _unset, call_get_buffer, [], also_monotone=False)
+two_run("get_buffer", CTX + ".get_buffer", "output_stream_limit", _unset, call_get_buffer_plain, [], also_monotone=False, label="get_buffer[parent is a NullIO]")
 two_run("_get_buffer", TEMPLATE + "._get_buffer", "output_stream_limit", _unset, call_template_get_buffer, [], also_monotone=False)
 
 
